@@ -384,6 +384,7 @@ type FuncContract struct {
 	Trusted  bool
 	Panics   *Clause // condition under which a panic is the specified outcome
 	Inline   bool    // force inlining at call sites even though a contract exists
+	FreshResult bool // reference results are freshly allocated, non-nil objects
 	Pkg      string  // package path the contract was declared in ("" for stubs)
 	File     string
 	Line     int
@@ -439,7 +440,7 @@ var clauseKeywords = map[string]bool{
 	"requires": true, "ensures": true, "modifies": true, "trusted": true, "panics": true, "loop": true,
 	"invariant": true, "at": true, "func": true, "pred": true, "fn": true, "ufn": true, "sort": true,
 	"ghost": true, "axiom": true, "layout": true, "callers": true, "pin": true, "typeshape": true,
-	"lemma": true, "inline": true, "nocall": true, "package": true,
+	"lemma": true, "inline": true, "nocall": true, "package": true, "freshresult": true,
 }
 
 var tagRe = regexp.MustCompile(`^C\d\d(,C\d\d)*$`)
@@ -608,6 +609,11 @@ func (ss *SpecSet) ParseSpecFile(path string, goComments bool, pkgPath string) e
 				return fmt.Errorf("%s:%d: trusted outside func", path, it.line)
 			}
 			cur.Trusted = true
+		case "freshresult":
+			if cur == nil {
+				return fmt.Errorf("%s:%d: freshresult outside func", path, it.line)
+			}
+			cur.FreshResult = true
 		case "inline":
 			if cur == nil {
 				return fmt.Errorf("%s:%d: inline outside func", path, it.line)
